@@ -11,7 +11,9 @@ LEVEL = "exploration"
 SHARDS = {"quick": 8, "thorough": 16}
 TIMEOUT = {"quick": 900, "thorough": 3000}
 MIN_EVALUATIONS = {"quick": 4000, "thorough": 4000}  # fewer oracle evaluations than this means the workload collapsed: inconclusive
-RULE = ("request kinds {generic connected / UCMM / Unconnected Send - untyped and with a data type the reply is decoded with -, single read, single write, bit write (read-modify-write), 3-fragment read "
+RULE = ("[also: discover() against 1-5 UDP ListIdentity replies drawn from {ok, non-zero encapsulation status with an intact item, cut short, header-only} - exactly "
+        "the ok ones are listed] "
+"request kinds {generic connected / UCMM / Unconnected Send - untyped and with a data type the reply is decoded with -, single read, single write, bit write (read-modify-write), 3-fragment read "
         "and write with the fault on each fragment position, SLC/PCCC read and write, multi-service read/write with every per-service status vector of length <= 4 over "
         "{0,4,5,6,0xFF}, register session, list identity, symbol-list page, template attribute and template read during upload} x general "
         "status 0..255 x extended-status size {0,1,2 words} (table values + random) -> truthy exactly for status 0 (6 only for continuing "
